@@ -50,7 +50,9 @@ type Descriptor struct {
 	TypeFn    *ast.FuncLit
 	Function  *ast.FuncLit
 	Factory   *ast.FuncLit // the enclosing immediately-invoked literal (holds per-function state such as caches)
-	FuncExpr  ast.Expr
+	// Binds: for a named factory, its parameters and the arguments this table entry passes (Function: newMatcher("(?i)"))
+	Binds    map[types.Object]ast.Expr
+	FuncExpr ast.Expr
 }
 
 func (d *Descriptor) Key() string { return fmt.Sprintf("%s#%d", d.Name, d.Index) }
@@ -169,10 +171,38 @@ func FunctionMap(p *core.Program) ([]*Descriptor, *core.FuncRef, error) {
 							d.Strict = constant.BoolVal(tv.Value)
 						}
 					case "TypeFn":
-						d.TypeFn, _ = core.Unparen(dkv.Value).(*ast.FuncLit)
+						d.TypeFn = namedOrLit(fn, dkv.Value)
 					case "Function":
 						d.FuncExpr = dkv.Value
-						d.Function, _ = core.Unparen(dkv.Value).(*ast.FuncLit)
+						d.Function = namedOrLit(fn, dkv.Value)
+						// a named factory: Function: newMatcher(flags) with `func newMatcher(…) func(values…) {…; return func(values…) {…}}`
+						if call, ok := core.Unparen(dkv.Value).(*ast.CallExpr); ok && d.Function == nil {
+							if outer := namedOrLit(fn, call.Fun); outer != nil {
+								if _, isLit := core.Unparen(call.Fun).(*ast.FuncLit); !isLit {
+									d.Factory = outer
+									d.Binds = map[types.Object]ast.Expr{}
+									ai := 0
+									for _, f := range outer.Type.Params.List {
+										for _, nm := range f.Names {
+											if ai < len(call.Args) && call.Ellipsis == token.NoPos {
+												if o := fn.Info().Defs[nm]; o != nil {
+													d.Binds[o] = call.Args[ai]
+												}
+											}
+											ai++
+										}
+									}
+									for _, rs := range ReturnsOf(outer) {
+										if len(rs.Results) == 1 {
+											if inner, ok := core.Unparen(rs.Results[0]).(*ast.FuncLit); ok {
+												// a node of its own per table entry: the bindings differ between entries
+												d.Function = &ast.FuncLit{Type: inner.Type, Body: inner.Body}
+											}
+										}
+									}
+								}
+							}
+						}
 						// func() func(values) (Value, error) { cache := …; return func(values…) {…} }()
 						if call, ok := core.Unparen(dkv.Value).(*ast.CallExpr); ok && d.Function == nil {
 							if outer, ok := core.Unparen(call.Fun).(*ast.FuncLit); ok {
@@ -212,3 +242,29 @@ func ReturnsOf(lit *ast.FuncLit) []*ast.ReturnStmt {
 }
 
 var _ = token.NoPos
+
+// namedOrLit: a function literal, or the declaration of a package-level function of the same package named by e
+// (presented as a literal over the declaration's own type and body nodes) — `TypeFn: orderingComparisonType` is the
+// same table entry as the literal it was extracted from.
+func namedOrLit(fn *core.FuncRef, e ast.Expr) *ast.FuncLit {
+	e = core.Unparen(e)
+	if lit, ok := e.(*ast.FuncLit); ok {
+		return lit
+	}
+	id, ok := e.(*ast.Ident)
+	if !ok {
+		return nil
+	}
+	obj := fn.Info().Uses[id]
+	if obj == nil {
+		return nil
+	}
+	for _, f := range fn.Pkg.Syntax {
+		for _, d := range f.Decls {
+			if fd, ok := d.(*ast.FuncDecl); ok && fd.Recv == nil && fd.Body != nil && fn.Info().Defs[fd.Name] == obj {
+				return &ast.FuncLit{Type: fd.Type, Body: fd.Body}
+			}
+		}
+	}
+	return nil
+}
